@@ -884,7 +884,9 @@ class PythonPrimitiveToStoneDecoder:
             else:
                 try:
                     ret = base64.b64decode(val)
-                except (TypeError, binascii.Error):
+                except (TypeError, ValueError):
+                    # binascii.Error is a ValueError; so is the error for
+                    # non-ASCII characters in a str argument.
                     raise bv.ValidationError('invalid base64-encoded bytes')
         elif isinstance(data_type, bv.Void):
             if self.strict and val is not None:
